@@ -21,7 +21,7 @@ from xdsl.printer import Printer  # noqa: E402
 from xdsl.traits import IsolatedFromAbove, IsTerminator, NoTerminator  # noqa: E402
 from xdsl.utils.exceptions import ParseError, VerifyException  # noqa: E402
 
-LEVEL = "bounded_symbolic"
+LEVEL = "other"
 EXPLANATION = (
     "IR skeletons (straight-line values with repeated/unnamed/hinted results, multi-result ops, block arguments, several blocks "
     "with branches and forward block references, nested and sibling regions reusing hints, an IsolatedFromAbove op with results "
